@@ -725,6 +725,14 @@ static int t_mpf_exact (const char *f, int budget)
           ok = mpz_cmp (a, b) == 0 && mpf_wf (pr);
           if (!ok) { failed (f); printf (" alias=%d e=%lu", al, e); show_f ("u", u0); show_f ("got", pr); printf ("\n"); return 1; }
         }
+      else if (!strcmp (f, "mpf_set_z"))
+        {
+          mpz_t z; mk_mpz (z, 6); int zn = abs (z->_mp_size), keep = zn < r->_mp_prec + 1 ? zn : r->_mp_prec + 1;
+          mpf_set_z (r, z);
+          ok = abs (r->_mp_size) == keep && r->_mp_exp == zn && (keep == 0 || (r->_mp_size < 0) == (z->_mp_size < 0)) && memcmp (r->_mp_d, z->_mp_d + (zn - keep), keep * sizeof (L)) == 0 && mpf_wf (r);
+          if (!ok) { failed (f); show_z ("z", z); show_f ("got", r); printf ("\n"); return 1; }
+          mpz_clear (z);
+        }
       else if (!strcmp (f, "mpf_cmp_si"))
         {
           long v = (long) pat (); if (it % 3 == 0 && un == 1 && u->_mp_exp == 1) v = (long) (u->_mp_d[0] + (rnd64 () % 3) - 1) * (u->_mp_size < 0 ? -1 : 1);
@@ -879,6 +887,44 @@ static int t_random (const char *f, int budget)
   printf ("PASS %d\n", budget / 40); return 0;
 }
 
+
+/* ---- C06: mpn_get_str / mpn_set_str, every base 2..62 (get) / 2..256 power-of-two and others via round trip */
+static int t_radix (const char *f, int budget)
+{
+  int only = 0; const char *bp = strstr (f, "_b"); if (bp) only = atoi (bp + 2);
+  for (int it = 0; it < budget / 8; it++)
+    {
+      int bases[] = {2, 4, 8, 16, 32, 64, 128, 256, 3, 10, 36, 62, 7, 255};
+      int base = only ? only : bases[rnd64 () % 14];
+      int un = 1 + rnd64 () % 6; L u[8], u2[8], r[16]; fill (u, un); while (u[un - 1] == 0) u[un - 1] = pat (); memcpy (u2, u, sizeof u);
+      unsigned char str[600], str2[600];
+      size_t n = mpn_get_str (str, base, u2, un);
+      /* reference digits: repeated division of a copy by the base (schoolbook) */
+      L q[8]; memcpy (q, u, sizeof u); int qn = un; size_t rn = 0;
+      while (qn > 0) { u128 rem = 0; for (int i = qn - 1; i >= 0; i--) { u128 cur = (rem << 64) | q[i]; q[i] = (L) (cur / base); rem = cur % base; } str2[rn++] = (unsigned char) rem; while (qn > 0 && q[qn - 1] == 0) qn--; }
+      int ok = 1;
+      if (!strncmp (f, "mpn_get_str", 11))
+        {
+          /* leading zeros are allowed by the manual only as "may"; compare the values: skip leading zeros of the output */
+          size_t z = 0; while (z + 1 < n && str[z] == 0) z++;
+          ok = (n - z == rn); for (size_t i = 0; ok && i < rn; i++) ok = str[z + i] == str2[rn - 1 - i];
+          if ((base & (base - 1)) == 0) ok = ok && z == 0;                      /* power-of-two bases: exact digit count (contract) */
+          if (!ok) { failed (f); printf (" base=%d", base); show ("u", u, un); printf (" got %zu digits:", n); for (size_t i = 0; i < n && i < 40; i++) printf (" %d", str[i]); printf ("\n"); return 1; }
+        }
+      else
+        {
+          /* set_str of the reference digits (most significant first, optionally with leading zero digits) gives u back */
+          size_t lz = rnd64 () % 3, len = rn + lz; unsigned char in[700]; memset (in, 0, lz); for (size_t i = 0; i < rn; i++) in[lz + i] = str2[rn - 1 - i];
+          memset (r, 0xA5, sizeof r);
+          mp_size_t sz = mpn_set_str (r, in, len, base);
+          int sn = norm (r, sz);
+          ok = sn == un && memcmp (r, u, un * sizeof (L)) == 0 && sz <= (mp_size_t) ((len * 8 + 63) / 64 + 1);
+          if (!ok) { failed (f); printf (" base=%d leading_zero_digits=%zu", base, lz); show ("want", u, un); show ("got", r, sz > 0 && sz < 12 ? sz : 0); printf (" size=%ld\n", (long) sz); return 1; }
+        }
+    }
+  printf ("PASS %d\n", budget / 8); return 0;
+}
+
 int main (int argc, char **argv)
 {
   if (argc < 4) { fprintf (stderr, "usage: native <function> <seed> <budget>\n"); return 2; }
@@ -902,9 +948,10 @@ int main (int argc, char **argv)
   if (!strncmp (f, "mpz_cmp", 7) || !strncmp (f, "mpz_fits", 8) || !strncmp (f, "mpz_get", 7) || !strncmp (f, "mpz_set_", 8)) return t_mpz_c11 (f, budget);
   if (!strcmp (f, "raw")) { int r1 = t_raw (f, budget); return r1 ? r1 : t_raw_leak (budget); }
   if (!strncmp (f, "mpq_", 4)) return t_mpq (f, budget);
-  if (!strcmp (f, "mpf_neg") || !strcmp (f, "mpf_abs") || !strcmp (f, "mpf_set") || !strcmp (f, "mpf_integer_p") || !strcmp (f, "mpf_get_ui") || !strcmp (f, "mpf_get_si") || !strncmp (f, "mpf_fits_", 9) || !strcmp (f, "mpf_cmp_ui") || !strcmp (f, "mpf_set_ui") || !strcmp (f, "mpf_set_si") || !strcmp (f, "mpf_trunc") || !strcmp (f, "mpf_ceil") || !strcmp (f, "mpf_floor") || !strcmp (f, "mpf_cmp_si") || !strcmp (f, "mpf_swap") || !strcmp (f, "mpf_mul_2exp") || !strcmp (f, "mpf_div_2exp")) return t_mpf_exact (f, budget);
+  if (!strcmp (f, "mpf_neg") || !strcmp (f, "mpf_abs") || !strcmp (f, "mpf_set") || !strcmp (f, "mpf_integer_p") || !strcmp (f, "mpf_get_ui") || !strcmp (f, "mpf_get_si") || !strncmp (f, "mpf_fits_", 9) || !strcmp (f, "mpf_cmp_ui") || !strcmp (f, "mpf_set_ui") || !strcmp (f, "mpf_set_si") || !strcmp (f, "mpf_trunc") || !strcmp (f, "mpf_ceil") || !strcmp (f, "mpf_floor") || !strcmp (f, "mpf_cmp_si") || !strcmp (f, "mpf_swap") || !strcmp (f, "mpf_mul_2exp") || !strcmp (f, "mpf_div_2exp") || !strcmp (f, "mpf_set_z")) return t_mpf_exact (f, budget);
   if (!strcmp (f, "mpz_gcd_ui") || !strcmp (f, "mpz_invert") || !strcmp (f, "mpz_lcm")) return t_mpz_gcdfam (f, budget);
   if (!strcmp (f, "mpz_urandomb") || !strcmp (f, "gmp_urandomb_ui") || !strcmp (f, "gmp_urandomm_ui") || !strcmp (f, "mpn_urandomm") || !strcmp (f, "mpz_urandomm") || !strcmp (f, "randseed_lc")) return t_random (f, budget);
+  if (!strncmp (f, "mpn_get_str", 11) || !strncmp (f, "mpn_set_str", 11)) return t_radix (f, budget);
   if (!strcmp (f, "mpf_cmp")) return t_mpf_cmp (f, budget);
   printf ("no native test for %s\n", f);
   return 3;
